@@ -31,7 +31,8 @@ META = {
             "make_data vs put_data of a fresh MjData (same treedef, shapes, dtypes up to jax's int width for contact.geom, equal values on every leaf except the padding of "
             "INACTIVE contact slots, and forward() of both is identical; OBSERVATION recorded in the evidence: make_data pads contact.dist with 0 and contact.geom with -1 "
             "where put_data pads with 1e10 and 0; only active contacts are compared); put_data -> get_data on MjData with active contacts of condim 1/3/4/6 under both cones, a limit, a friction-loss dof "
-            "and an equality returns counts, every efc_* field and the contact fields unchanged; KNOWN findings C44-F1 (rows with an all-zero Jacobian dropped) and "
+            "and an equality returns counts, every efc_* field and the contact fields unchanged; put_data / get_data / put_model / make_data return snapshots (stepping, writing or resetting the source MjData / MjModel afterwards, or writing the "
+            "MjData returned by get_data, leaves the mjx object unchanged: no aliasing of host memory under x64 on the CPU); KNOWN findings C44-F1 (rows with an all-zero Jacobian dropped) and "
             "C44-F2 (contacts with dist > 0 inside the margin dropped) and C44-F3 (static instead of active ne / nf / nl written by get_data) are replayed in both tiers and reported under their signatures only when the loss is exactly "
             "of that class.  NOT COVERED: plugin state (no plugin model can be built), warp / C++ back ends.",
     "note": "Trusted: Coq kernel; translate/mjxstate2v.py and translate/state2v.py (fail-closed readers); hand-written loop models "
